@@ -30,7 +30,8 @@ type c18Server struct {
 type c18Case struct {
 	Bundle  string // one | two | both | … | rotating:<ca2|ca1|both> (one file path whose content is rewritten before the signer is built)
 	Servers []c18Server
-	Before  []string `json:",omitempty"` // rotating bundles: contents the SAME path held earlier, each used by a signer that signed once
+	Then    [][]c18Server `json:",omitempty"` // further calls on the SAME signer, each after the servers took these personalities
+	Before  []string      `json:",omitempty"` // rotating bundles: contents the SAME path held earlier, each used by a signer that signed once
 }
 
 func (k c18Case) genuineAt(i int) bool {
@@ -112,6 +113,34 @@ func c18Run(c *ev.Ctx, k c18Case) {
 		os.WriteFile(path, data, 0o600)
 		files = []string{path}
 	}
+	c18Configure(k)
+	var eps []string
+	for i := range k.Servers {
+		eps = append(eps, fmt.Sprintf("127.0.0.%d", i+1))
+	}
+	signer, err := crypki.NewSigner(crypki.SignerConfig{TLSClientKeyFile: c17PKI.ClientKeyFile, TLSClientCertFile: c17PKI.ClientCertFile, TLSCACertFiles: files,
+		CrypkiEndpoints: eps, CrypkiPort: uint(c17Farm.port), Retries: 1, PerTryTimeout: 15 * time.Second})
+	if err != nil {
+		c.Violation("C18:newsigner-refuses-valid-config", err.Error(), k)
+		return
+	}
+	if !c18CallAndJudge(c, k, signer) {
+		return
+	}
+	for _, next := range k.Then {
+		// the SAME signer, later: the servers behind the endpoints have changed (a restarted, re-provisioned or hijacked
+		// endpoint); this call is judged by what the endpoints are now
+		kk := k
+		kk.Servers = next
+		c18Configure(kk)
+		if !c18CallAndJudge(c, kk, signer) {
+			return
+		}
+	}
+}
+
+// c18Configure gives the farm's servers the personalities of k.Servers.
+func c18Configure(k c18Case) {
 	for i, s := range c17Farm.servers {
 		s.reset()
 		if i >= len(k.Servers) {
@@ -135,16 +164,10 @@ func c18Run(c *ev.Ctx, k c18Case) {
 		s.ans = answer{Kind: "ok", Key: c17CertLines[i%len(c17CertLines)]}
 		s.mu.Unlock()
 	}
-	var eps []string
-	for i := range k.Servers {
-		eps = append(eps, fmt.Sprintf("127.0.0.%d", i+1))
-	}
-	signer, err := crypki.NewSigner(crypki.SignerConfig{TLSClientKeyFile: c17PKI.ClientKeyFile, TLSClientCertFile: c17PKI.ClientCertFile, TLSCACertFiles: files,
-		CrypkiEndpoints: eps, CrypkiPort: uint(c17Farm.port), Retries: 1, PerTryTimeout: 15 * time.Second})
-	if err != nil {
-		c.Violation("C18:newsigner-refuses-valid-config", err.Error(), k)
-		return
-	}
+}
+
+// c18CallAndJudge makes one signing call and judges it against the current personalities (k.Servers); false = stop.
+func c18CallAndJudge(c *ev.Ctx, k c18Case, signer *crypki.Signer) bool {
 	req := &proto.SSHCertificateSigningRequest{KeyMeta: &proto.KeyMeta{Identifier: "slot"}, Principals: []string{"alice"}, PublicKey: c17CertLines[0], Validity: 60}
 	ctx, cancel := context.WithTimeout(context.Background(), 90*time.Second)
 	defer cancel()
@@ -152,7 +175,7 @@ func c18Run(c *ev.Ctx, k c18Case) {
 	var serr error
 	if p := ev.Guard(func() { certs, _, serr = signer.Sign(ctx, req) }); p != "" {
 		c.Violation("C18:crash:"+ev.PanicSite(p), p, k)
-		return
+		return false
 	}
 	first := -1
 	for i := range k.Servers {
@@ -203,16 +226,17 @@ func c18Run(c *ev.Ctx, k c18Case) {
 		if serr == nil {
 			c.Violation("C18:success-against-impostors-only", fmt.Sprintf("Sign succeeded with %d certificates although no endpoint is genuine", len(certs)), k)
 		}
-		return
+		return true
 	}
 	if serr != nil {
 		c.Violation("C18:genuine-endpoint-fails:"+k.Servers[first].Identity+":"+k.Servers[first].Proto+":"+k.Servers[first].ClientAuth+":"+k.Bundle, fmt.Sprintf("endpoint %d is genuine but Sign failed: %v", first, serr), k)
-		return
+		return false
 	}
 	want, _, _, _, _ := ssh.ParseAuthorizedKey([]byte(c17CertLines[first%len(c17CertLines)]))
 	if len(certs) != 1 || !bytes.Equal(certs[0].Marshal(), want.Marshal()) {
 		c.Violation("C18:reply-from-wrong-endpoint", fmt.Sprintf("Sign did not return the certificate of the first genuine endpoint %d", first), k)
 	}
+	return true
 }
 
 // c18OverlapCase: two signers of one process use the same endpoint at overlapping times. Signer A's call is in flight (the
@@ -356,7 +380,7 @@ func c18Overlap(c *ev.Ctx, k c18OverlapCase) {
 }
 
 func checkC18(c *ev.Ctx) {
-	c.Rule("real crypki.NewSigner / Sign over real TLS against harness gRPC servers on 127.0.0.1..3:port whose TLS personality is swapped per configuration: CA bundle {one file, two files, one file with two certificates; plus 4 other legal layouts of the two-CA bundle: no newline after the last END line, an unrelated CA in front, CRLF with text between blocks, reversed order; and a single path whose content is rewritten between signers (6 earlier-content histories x 3 current contents)} x server identity {configured CA 1, CA 2, foreign CA, self-signed, expired, not yet valid, other name} x protocol range {1.0-1.1, 1.2, 1.3, 1.0-1.3} x client-certificate policy {require+verify, request, ignore, request while naming only a foreign client CA, verify-if-given against a foreign client CA} (420 single-endpoint configurations), plus endpoint lists of length 2..3 with every placement of one genuine server among impostors of 3 kinds incl. a configured-CA certificate that names the first endpoint (thorough: 7 kinds, two genuine servers); plus 36 overlap scenarios: two signers with bundles {CA 1, CA 2, both} each, the first signer's call held in the server's handler (event-driven gate) while the second signer calls the same endpoint; servers record handshakes, negotiated version, peer certificates and whether the RPC handler ran. non-trivial = every configuration; distinct by configuration")
+	c.Rule("real crypki.NewSigner / Sign over real TLS against harness gRPC servers on 127.0.0.1..3:port whose TLS personality is swapped per configuration: CA bundle {one file, two files, one file with two certificates; plus 4 other legal layouts of the two-CA bundle: no newline after the last END line, an unrelated CA in front, CRLF with text between blocks, reversed order; and a single path whose content is rewritten between signers (6 earlier-content histories x 3 current contents)} x server identity {configured CA 1, CA 2, foreign CA, self-signed, expired, not yet valid, other name} x protocol range {1.0-1.1, 1.2, 1.3, 1.0-1.3} x client-certificate policy {require+verify, request, ignore, request while naming only a foreign client CA, verify-if-given against a foreign client CA} (420 single-endpoint configurations), plus endpoint lists of length 2..3 with every placement of one genuine server among impostors of 3 kinds incl. a configured-CA certificate that names the first endpoint (thorough: 7 kinds, two genuine servers); plus 9 sequences of two or three calls on ONE long-lived signer with the servers behind the endpoints changing personality in between (genuine and impostor swapping places), plus 36 overlap scenarios: two signers with bundles {CA 1, CA 2, both} each, the first signer's call held in the server's handler (event-driven gate) while the second signer calls the same endpoint; servers record handshakes, negotiated version, peer certificates and whether the RPC handler ran. non-trivial = every configuration; distinct by configuration")
 	c.Assume("TLS and gRPC libraries run with their own goroutines and real time; outcomes are deterministic functions of the configuration; handshake internals are trusted")
 	c17PKI = newPKI()
 	defer os.RemoveAll(c17PKI.dir)
@@ -421,6 +445,19 @@ func checkC18(c *ev.Ctx) {
 				c18Run(c, c18Case{Bundle: "rotating:" + now, Before: before, Servers: []c18Server{{id, "1.3", "require"}, {"ca1", "1.2", "require"}, {"ca2", "1.3", "require"}}})
 				n += 2
 			}
+		}
+	}
+	// one long-lived signer, two or three calls, the servers behind the endpoints changing in between (genuine and impostor
+	// swap places, a genuine endpoint turns impostor and back)
+	{
+		g, g2 := c18Server{"ca1", "1.3", "require"}, c18Server{"ca2", "1.2", "request"}
+		im, im2 := c18Server{"foreign", "1.2", "require"}, c18Server{"selfsigned", "1.3", "request"}
+		for _, seq := range [][][]c18Server{
+			{{im, g}, {g, im}}, {{g, im}, {im, g}}, {{im, g}, {g, im}, {im, g}}, {{im, im2, g}, {g, im2, im}}, {{im, g, im2}, {im, im2, g}, {g, im, im2}},
+			{{im, g}, {im, im2}, {g, im}}, {{g2, g}, {im, g}, {g2, im}}, {{im, g2}, {g2, g2}}, {{g}, {im}, {g}},
+		} {
+			c18Run(c, c18Case{Bundle: "two", Servers: seq[0], Then: seq[1:]})
+			n++
 		}
 	}
 	impostors := []c18Server{{"foreign", "1.2", "require"}, {"ca1", "1.0-1.1", "ignore"}, {"firstname", "1.2", "request"}}
